@@ -25,4 +25,9 @@ let () =
         let nrank x = nat_of_int rk.(int_of_nat x) in
         let tab = route_table (nat_of_int n) (conn_of (pairs_of edges)) nrank (nats order) in
         String.concat " ; " (List.map (fun row -> String.concat " , " (List.map (fun r -> str_ints (List.map int_of_nat r)) row)) tab)
+    | _ -> "?args");
+  (* routesweep n k m : the Coq function order_independent_slice n k m (graphs with index = k mod m) evaluated by the extracted code (all graphs on n layouts,
+     all alphabetical orders of the names, all set iteration orders) *)
+  register "routesweep" (fun t -> match t with
+    | [n; k; m] -> if order_independent_slice (nat_of_int (int_of_string n)) (nat_of_int (int_of_string k)) (nat_of_int (int_of_string m)) then "1" else "0"
     | _ -> "?args")
